@@ -1592,4 +1592,425 @@ theorem frontend_spec (g : Bool) (D : Down) (hD : D.Sorted) (splitMs : Int) (hsp
 
 end
 
+theorem atStep_pos {a' b' step t : Int} (hs : 0 < step) (ha : a' % step = 0) :
+    atStep a' b' step t = true ↔ a' ≤ t ∧ t ≤ b' ∧ t % step = 0 := by
+  unfold atStep
+  by_cases h : t < a' ∨ t > b'
+  · simp [h]; omega
+  · have hge : 0 ≤ t - a' := by omega
+    have hns : ¬ step ≤ 0 := by omega
+    simp only [h, if_false, hns, decide_false, Bool.false_or, decide_eq_true_eq]
+    rw [Int.tmod_eq_emod_of_nonneg hge]
+    have : (t - a') % step = 0 ↔ t % step = 0 := by rw [Int.sub_emod, ha]; simp
+    rw [this]
+    constructor
+    · intro h3; exact ⟨by omega, by omega, h3⟩
+    · intro h3; exact h3.2.2
+
+/-- `ExtractForStep(start, end, step, ·)` of a response cached under a smaller step `s'` that
+    divides `step`, with `start` on the request's grid: exact for `step` on the intersection -/
+theorem extract_exact_step {D : Down} {s' step a b : Int} {m : Matrix} (h : Exact D s' a b m)
+    (hs' : 0 < s') (hs : 0 < step) (hdvd : step % s' = 0) (a' b' : Int) (ha' : a' % step = 0) :
+    Exact D step (max a a') (min b b') (extract a' b' step m) := by
+  have hnd := canon_nodup h.canon
+  refine ⟨⟨List.Pairwise.sublist (ids_extract_sub _ _ _ _) h.canon.1, fun s hs => (mem_extract hs).1⟩, ?_, ?_⟩
+  · intro s hs
+    obtain ⟨_, s0, hs0, _, heq⟩ := mem_extract hs
+    rw [heq]
+    exact List.Pairwise.filter _ (h.asc s0 hs0)
+  · intro id x
+    rw [look_extract _ _ _ _ hnd, List.mem_filter, h.mem, atStep_pos hs ha']
+    have hmod : x.t % step = 0 → x.t % s' = 0 := by
+      intro h0
+      exact Int.emod_eq_zero_of_dvd (Int.dvd_trans (Int.dvd_of_emod_eq_zero hdvd) (Int.dvd_of_emod_eq_zero h0))
+    constructor
+    · rintro ⟨⟨⟨h1, _, h3⟩, h4, h5⟩, h6, h7, h8⟩
+      exact ⟨⟨h1, h8, h3⟩, by omega, by omega⟩
+    · rintro ⟨⟨h1, h2, h3⟩, h4, h5⟩
+      exact ⟨⟨⟨h1, hmod h2, h3⟩, by omega, by omega⟩, by omega, by omega, h2⟩
+
+/-- sub-requests of a matching-step partition (nothing is written back, so their ends need not be
+    on the grid) -/
+def ReqsOKm (req : Req) (rs : List Req) : Prop :=
+  ∀ r ∈ rs, r.step = req.step ∧ req.start ≤ r.start ∧ r.start % req.step = 0 ∧ r.stop ≤ req.stop
+
+structure PInvM (D : Down) (req : Req) (start : Int) (rs : List Req) (ps : List Piece) : Prop where
+  pieces : PiecesOK D req ps
+  reqs : ReqsOKm req rs
+  lo : req.start ≤ start
+  al : start % req.step = 0
+  cov : ∀ t, req.start ≤ t → t ≤ req.stop → t % req.step = 0 → (t < start ∨ (t = start ∧ ps ≠ [])) → Covered ps rs t
+  fresh : ps = [] → start = req.start ∧ rs = []
+
+/-- the repaired continuation point: the largest point of the request's grid `≤ e.stop` -/
+theorem gridFloor {reqStart step estop start : Int} (hs : 0 < step) (hra : reqStart % step = 0) (hlo : reqStart ≤ start)
+    (hal : start % step = 0) (hle : start ≤ estop) :
+    let next := estop - (estop - reqStart).tmod step
+    next % step = 0 ∧ next ≤ estop ∧ start ≤ next := by
+  intro next
+  have hd0 : 0 ≤ estop - reqStart := by omega
+  have htm : (estop - reqStart).tmod step = (estop - reqStart) % step := Int.tmod_eq_emod_of_nonneg hd0
+  have hm0 := Int.emod_nonneg (estop - reqStart) (by omega : step ≠ 0)
+  have hm1 := Int.emod_lt_of_pos (estop - reqStart) hs
+  have hdm := Int.emod_add_mul_ediv (estop - reqStart) step
+  have hnext : next = reqStart + step * ((estop - reqStart) / step) := by
+    simp only [next, htm]; omega
+  refine ⟨?_, by simp only [next, htm]; omega, ?_⟩
+  · rw [hnext, Int.add_emod, hra]; simp
+  · -- start - reqStart = step * k with step * k ≤ estop - reqStart, so k ≤ (estop - reqStart) / step
+    have hk : (start - reqStart) % step = 0 := by rw [Int.sub_emod, hal, hra]; simp
+    obtain ⟨k, hk⟩ := Int.dvd_of_emod_eq_zero hk
+    have hkle : k ≤ (estop - reqStart) / step := by
+      apply Int.le_ediv_of_mul_le hs
+      rw [Int.mul_comm]; omega
+    have : step * k ≤ step * ((estop - reqStart) / step) := Int.mul_le_mul_of_nonneg_left hkle (by omega)
+    omega
+
+theorem partitionLoop_spec_m (D : Down) (req : Req) (hreq : Aligned req) (s' : Int) (hs' : 0 < s') (hdvd : req.step % s' = 0) :
+    ∀ (exts : List Extent), (∀ e ∈ exts, GoodExtent D s' e) →
+    ∀ (start : Int) (rs : List Req) (ps : List Piece), PInvM D req start rs ps →
+      ∃ start' rs' ps', partitionLoop ⟨true, true⟩ req true exts start rs (ps.map (·.m)) = (start', rs', ps'.map (·.m)) ∧
+        PInvM D req start' rs' ps'
+  | [], _, start, rs, ps, hinv => ⟨start, rs, ps, rfl, hinv⟩
+  | e :: es, hgood, start, rs, ps, hinv => by
+    have hes : ∀ e' ∈ es, GoodExtent D s' e' := fun e' he' => hgood e' (List.mem_cons_of_mem _ he')
+    obtain ⟨he0, hele, hea, heb, hex⟩ := hgood e (by simp)
+    obtain ⟨hstep, hr0, hrle, hra, hrb⟩ := hreq
+    unfold partitionLoop
+    by_cases h1 : e.stop < start ∨ e.start > req.stop
+    · rw [if_pos h1]
+      exact partitionLoop_spec_m D req ⟨hstep, hr0, hrle, hra, hrb⟩ s' hs' hdvd es hes start rs ps hinv
+    · rw [if_neg h1]
+      by_cases h2 : req.start ≠ req.stop ∧ req.stop - req.start > minCacheExtent ∧ e.stop - e.start < minCacheExtent
+      · rw [if_pos h2]
+        exact partitionLoop_spec_m D req ⟨hstep, hr0, hrle, hra, hrb⟩ s' hs' hdvd es hes start rs ps hinv
+      · rw [if_neg h2]
+        have ho1 : start ≤ e.stop := by omega
+        have ho2 : e.start ≤ req.stop := by omega
+        obtain ⟨hn1, hn2, hn3⟩ := gridFloor hstep hra hinv.lo hinv.al ho1
+        let next := e.stop - (e.stop - req.start).tmod req.step
+        let rs1 : List Req := if start < e.start then rs ++ [⟨start, e.start, req.step⟩] else rs
+        let piece : Piece := ⟨max e.start start, min e.stop req.stop, extract start req.stop req.step e.resp⟩
+        have hpm : (ps ++ [piece]).map (·.m) = ps.map (·.m) ++ [extract start req.stop req.step e.resp] := by simp [piece]
+        have hinv' : PInvM D req next rs1 (ps ++ [piece]) := by
+          have hpex : Exact D req.step (max e.start start) (min e.stop req.stop) (extract start req.stop req.step e.resp) :=
+            extract_exact_step hex hs' hstep hdvd start req.stop hinv.al
+          refine ⟨?_, ?_, by have := hinv.lo; omega, hn1, ?_, by simp⟩
+          · intro p hp
+            rcases List.mem_append.mp hp with hp | hp
+            · exact hinv.pieces p hp
+            · simp at hp; subst hp
+              have := hinv.lo
+              exact ⟨by simp [piece]; omega, hpex, by simp [piece]; omega, by simp [piece]; omega⟩
+          · intro r hr
+            by_cases hlt : start < e.start
+            · simp only [rs1, hlt, if_true] at hr
+              rcases List.mem_append.mp hr with hr | hr
+              · exact hinv.reqs r hr
+              · simp at hr; subst hr
+                exact ⟨rfl, hinv.lo, hinv.al, ho2⟩
+            · simp only [rs1, hlt, if_false] at hr
+              exact hinv.reqs r hr
+          · intro t ht1 ht2 ht3 hcase
+            by_cases hts : t < start ∨ (t = start ∧ ps ≠ [])
+            · refine (hinv.cov t ht1 ht2 ht3 hts).mono (fun p hp => List.mem_append_left _ hp) ?_
+              intro r hr
+              by_cases hlt : start < e.start
+              · simp only [rs1, hlt, if_true]; exact List.mem_append_left _ hr
+              · simp only [rs1, hlt, if_false]; exact hr
+            · have hge : start ≤ t := by omega
+              have hte : t ≤ e.stop := by
+                rcases hcase with h | h
+                · exact Int.le_trans (Int.le_of_lt h) hn2
+                · rw [h.1]; exact hn2
+              by_cases hin : e.start ≤ t
+              · exact Or.inl ⟨piece, by simp, by simp [piece]; omega, by simp [piece]; omega⟩
+              · have hlt : start < e.start := by omega
+                refine Or.inr ⟨⟨start, e.start, req.step⟩, ?_, hge, by simp; omega⟩
+                simp only [rs1, hlt, if_true]
+                simp
+        obtain ⟨start', rs', ps', heq, hfin⟩ := partitionLoop_spec_m D req ⟨hstep, hr0, hrle, hra, hrb⟩ s' hs' hdvd es hes next rs1 (ps ++ [piece]) hinv'
+        refine ⟨start', rs', ps', ?_, hfin⟩
+        rw [← heq, hpm]
+        have hgs : req.step > 0 := hstep
+        simp only [hgs, and_self, if_true]
+        rfl
+
+theorem partition_spec_m (D : Down) (hD : D.Sorted) (req : Req) (hreq : Aligned req) (s' : Int) (hs' : 0 < s')
+    (hdvd : req.step % s' = 0) (exts : List Extent) (hgood : ∀ e ∈ exts, GoodExtent D s' e) :
+    ∃ rs ps, partition ⟨true, true⟩ req true exts = (rs, ps.map (·.m)) ∧
+      (∀ p ∈ ps ++ fetchedPieces D rs, 0 ≤ p.a ∧ Exact D req.step p.a p.b p.m) ∧
+      (∀ p ∈ ps ++ fetchedPieces D rs, req.start ≤ p.a ∧ p.b ≤ req.stop) ∧
+      (∀ t, req.start ≤ t → t ≤ req.stop → t % req.step = 0 → ∃ p ∈ ps ++ fetchedPieces D rs, p.a ≤ t ∧ t ≤ p.b) := by
+  have hreq' := hreq
+  obtain ⟨hstep, hr0, hrle, hra, hrb⟩ := hreq
+  have hinit : PInvM D req req.start [] [] :=
+    ⟨by intro p hp; simp at hp, by intro r hr; simp at hr, Int.le_refl _, hra,
+     by intro t _ _ _ h; rcases h with h | h; omega; exact absurd rfl h.2, fun _ => ⟨rfl, rfl⟩⟩
+  obtain ⟨start', rs', ps', heq, hinv⟩ := partitionLoop_spec_m D req hreq' s' hs' hdvd exts hgood req.start [] [] hinit
+  simp only [List.map_nil] at heq
+  let rs1 : List Req := if start' < req.stop then rs' ++ [⟨start', req.stop, req.step⟩] else rs'
+  let rs2 : List Req := if req.start = req.stop ∧ (ps'.map (·.m)).isEmpty then rs1 ++ [req] else rs1
+  have hpart : partition ⟨true, true⟩ req true exts = (rs2, ps'.map (·.m)) := by
+    unfold partition
+    rw [heq]
+  have hrs2 : ∀ r ∈ rs2, r.step = req.step ∧ 0 ≤ r.start ∧ r.start % req.step = 0 ∧ req.start ≤ r.start ∧ r.stop ≤ req.stop := by
+    intro r hr
+    have hrs1 : ∀ r ∈ rs1, r.step = req.step ∧ 0 ≤ r.start ∧ r.start % req.step = 0 ∧ req.start ≤ r.start ∧ r.stop ≤ req.stop := by
+      intro r hr
+      have hold : ∀ r ∈ rs', r.step = req.step ∧ 0 ≤ r.start ∧ r.start % req.step = 0 ∧ req.start ≤ r.start ∧ r.stop ≤ req.stop := by
+        intro r hr
+        obtain ⟨a1, a2, a3, a4⟩ := hinv.reqs r hr
+        exact ⟨a1, by omega, a3, a2, a4⟩
+      by_cases hlt : start' < req.stop
+      · simp only [rs1, hlt, if_true] at hr
+        rcases List.mem_append.mp hr with hr | hr
+        · exact hold r hr
+        · simp at hr; subst hr
+          have := hinv.lo
+          exact ⟨rfl, by simp; omega, hinv.al, hinv.lo, Int.le_refl _⟩
+      · simp only [rs1, hlt, if_false] at hr
+        exact hold r hr
+    by_cases hsp : req.start = req.stop ∧ (ps'.map (·.m)).isEmpty
+    · simp only [rs2, hsp, and_self, if_true] at hr
+      rcases List.mem_append.mp hr with hr | hr
+      · exact hrs1 r hr
+      · simp at hr; subst hr
+        exact ⟨rfl, hr0, hra, Int.le_refl _, Int.le_refl _⟩
+    · simp only [rs2, hsp, if_false] at hr
+      exact hrs1 r hr
+  refine ⟨rs2, ps', hpart, ?_, ?_, ?_⟩
+  · intro p hp
+    rcases List.mem_append.mp hp with hp | hp
+    · exact ⟨(hinv.pieces p hp).1, (hinv.pieces p hp).2.1⟩
+    · simp only [fetchedPieces, List.mem_map] at hp
+      obtain ⟨r, hr, rfl⟩ := hp
+      obtain ⟨a1, a2, a3, _, _⟩ := hrs2 r hr
+      simp only
+      rw [a1]
+      exact ⟨a2, evalD_exact D hD req.step r.start r.stop hstep a3⟩
+  · intro p hp
+    rcases List.mem_append.mp hp with hp | hp
+    · exact (hinv.pieces p hp).2.2
+    · simp only [fetchedPieces, List.mem_map] at hp
+      obtain ⟨r, hr, rfl⟩ := hp
+      obtain ⟨_, _, _, a4, a5⟩ := hrs2 r hr
+      exact ⟨a4, a5⟩
+  · intro t ht1 ht2 ht3
+    have hcov : Covered ps' rs2 t := by
+      by_cases hts : t < start' ∨ (t = start' ∧ ps' ≠ [])
+      · refine (hinv.cov t ht1 ht2 ht3 hts).mono (fun p hp => hp) ?_
+        intro r hr
+        have h1 : r ∈ rs1 := by
+          by_cases hlt : start' < req.stop
+          · simp only [rs1, hlt, if_true]; exact List.mem_append_left _ hr
+          · simp only [rs1, hlt, if_false]; exact hr
+        by_cases hsp : req.start = req.stop ∧ (ps'.map (·.m)).isEmpty
+        · simp only [rs2, hsp, and_self, if_true]; exact List.mem_append_left _ h1
+        · simp only [rs2, hsp, if_false]; exact h1
+      · have hge : start' ≤ t := by omega
+        by_cases hlt : start' < req.stop
+        · refine Or.inr ⟨⟨start', req.stop, req.step⟩, ?_, hge, ht2⟩
+          have h1 : (⟨start', req.stop, req.step⟩ : Req) ∈ rs1 := by
+            simp only [rs1, hlt, if_true]; simp
+          by_cases hsp : req.start = req.stop ∧ (ps'.map (·.m)).isEmpty
+          · simp only [rs2, hsp, and_self, if_true]; exact List.mem_append_left _ h1
+          · simp only [rs2, hsp, if_false]; exact h1
+        · have hteq : t = start' := by omega
+          have hps : ps' = [] := by
+            by_cases hp : ps' = []
+            · exact hp
+            · exact absurd (Or.inr ⟨hteq, hp⟩) hts
+          have hfr := hinv.fresh hps
+          have hsp : req.start = req.stop ∧ (ps'.map (·.m)).isEmpty := by
+            subst hps; refine ⟨by omega, rfl⟩
+          refine Or.inr ⟨req, ?_, by omega, ht2⟩
+          simp only [rs2, hsp, and_self, if_true]; simp
+    rcases hcov with ⟨p, hp, h⟩ | ⟨r, hr, h⟩
+    · exact ⟨p, List.mem_append_left _ hp, h⟩
+    · exact ⟨⟨r.start, r.stop, evalD D r.start r.stop r.step⟩, List.mem_append_right _ (List.mem_map.mpr ⟨r, hr, rfl⟩), h⟩
+
+/-- **lower-step reuse answers exactly** (after the grid repair): a request answered from extents
+    cached under a smaller common step that divides its step gets the direct answer -/
+theorem handleHit_resp_m (D : Down) (hD : D.Sorted) (req : Req) (hreq : Aligned req) (s' : Int) (hs' : 0 < s')
+    (hdvd : req.step % s' = 0) (exts : List Extent) (hgood : ∀ e ∈ exts, GoodExtent D s' e) :
+    (handleHit ⟨true, true⟩ D req exts true).1 = evalD D req.start req.stop req.step := by
+  obtain ⟨rs, ps, hpart, hex, hin, hcov⟩ := partition_spec_m D hD req hreq s' hs' hdvd exts hgood
+  have hmerge := merge_exact hex hin hcov
+  have hdirect := evalD_exact D hD req.step req.start req.stop hreq.1 hreq.2.2.2.1
+  have hmap : (ps ++ fetchedPieces D rs).map (·.m) = ps.map (·.m) ++ rs.map (fun r => evalD D r.start r.stop r.step) := by
+    simp [fetchedPieces, List.map_map, Function.comp_def]
+  rw [hmap] at hmerge
+  unfold handleHit
+  rw [hpart]
+  simp only
+  by_cases hemp : rs.isEmpty = true
+  · have : rs = [] := by simpa using hemp
+    subst this
+    simp only [List.isEmpty_nil, if_true]
+    simp only [List.map_nil, List.append_nil] at hmerge
+    exact hmerge.unique hdirect
+  · simp only [hemp, Bool.false_eq_true, if_false]
+    simp only [List.map_map, Function.comp_def]
+    exact hmerge.unique hdirect
+
+section
+open Thanos.Split
+
+
+/-- a cache with keys of any (positive) steps: every extent is good for its key's step -/
+def GoodCacheM (D : Down) (c : Cache) : Prop :=
+  ∀ kv ∈ c, 0 < kv.1.step ∧ ∀ e ∈ kv.2, GoodExtent D kv.1.step e
+
+theorem goodCacheM_put {D : Down} {c : Cache} (hc : GoodCacheM D c) {k : Key} (hk : 0 < k.step)
+    {v : List Extent} (hv : ∀ e ∈ v, GoodExtent D k.step e) : GoodCacheM D (cachePut c k v) := by
+  intro kv hkv
+  rcases mem_cachePut hkv with h | h
+  · exact hc kv h
+  · subst h; exact ⟨hk, hv⟩
+
+theorem commonSteps_pos : ∀ s ∈ commonQuerySteps, 0 < s := by decide
+
+theorem lowerSteps_spec {step s : Int} (h : s ∈ lowerSteps step) : 0 < s ∧ s < step ∧ step % s = 0 := by
+  unfold lowerSteps at h
+  split at h
+  · obtain ⟨hm, hp⟩ := List.mem_filter.mp h
+    have hpos := commonSteps_pos s hm
+    simp at hp
+    have : step.tmod s = step % s := Int.tmod_eq_emod_of_nonneg (by omega)
+    exact ⟨hpos, by omega, by omega⟩
+  · simp at h
+
+/-- **C42_step for one (sub-)request, any cache**: primary hit, lower-step reuse, or miss -/
+theorem doReq_spec_m (D : Down) (hD : D.Sorted) (splitMs : Int) (c : Cache) (req : Req) (hreq : Aligned req)
+    (hc : GoodCacheM D c) :
+    (doReq ⟨true, true⟩ D splitMs c req).1 = evalD D req.start req.stop req.step ∧
+    GoodCacheM D (doReq ⟨true, true⟩ D splitMs c req).2 := by
+  unfold doReq
+  simp only
+  cases hget : cacheGet c ⟨req.step, splitMs, req.start.tdiv splitMs⟩ with
+  | some exts =>
+    have hgood : ∀ e ∈ exts, GoodExtent D req.step e := (hc _ (cacheGet_mem hget)).2
+    have hresp := handleHit_resp true D hD req hreq exts hgood
+    have hext := handleHit_extents true D hD req hreq exts hgood
+    simp only
+    cases hh : handleHit ⟨true, true⟩ D req exts false with
+    | mk resp oex =>
+      rw [hh] at hresp hext
+      simp only at hresp hext
+      cases oex with
+      | none => exact ⟨hresp, hc⟩
+      | some ex => exact ⟨hresp, goodCacheM_put hc hreq.1 (hext ex rfl)⟩
+  | none =>
+    simp only
+    cases halt : ((lowerSteps req.step).filter fun s => req.start.tmod s = 0).findSome?
+        (fun s => cacheGet c ⟨s, splitMs, req.start.tdiv splitMs⟩) with
+    | some exts =>
+      simp only
+      obtain ⟨s, hs, hget'⟩ := List.exists_of_findSome?_eq_some halt
+      obtain ⟨hs1, hs2, hs3⟩ := lowerSteps_spec (List.mem_filter.mp hs).1
+      have hgood : ∀ e ∈ exts, GoodExtent D s e := (hc _ (cacheGet_mem hget')).2
+      exact ⟨handleHit_resp_m D hD req hreq s hs1 hs3 exts hgood, hc⟩
+    | none =>
+      simp only
+      refine ⟨trivial, goodCacheM_put hc hreq.1 ?_⟩
+      intro e he
+      simp at he; subst he
+      obtain ⟨h1, h2, h3, h4, h5⟩ := hreq
+      exact ⟨h2, h3, h4, h5, evalD_exact D hD req.step req.start req.stop h1 h4⟩
+
+theorem foldParts_spec_m (D : Down) (hD : D.Sorted) (splitMs step : Int) :
+    ∀ (parts : List (Int × Int)) (resps : List Matrix) (c : Cache), GoodCacheM D c →
+      (∀ p ∈ parts, Aligned ⟨p.1, p.2, step⟩) →
+      (foldParts ⟨true, true⟩ D splitMs step parts (resps, c)).1 = resps ++ parts.map (fun p => evalD D p.1 p.2 step) ∧
+      GoodCacheM D (foldParts ⟨true, true⟩ D splitMs step parts (resps, c)).2
+  | [], resps, c, hc, _ => by simp [foldParts, hc]
+  | p :: parts, resps, c, hc, hal => by
+    have hp := hal p (by simp)
+    obtain ⟨h1, h2⟩ := doReq_spec_m D hD splitMs c ⟨p.1, p.2, step⟩ hp hc
+    simp only at h1 h2
+    have ih := foldParts_spec_m D hD splitMs step parts (resps ++ [(doReq ⟨true, true⟩ D splitMs c ⟨p.1, p.2, step⟩).1])
+      (doReq ⟨true, true⟩ D splitMs c ⟨p.1, p.2, step⟩).2 h2 (fun q hq => hal q (List.mem_cons_of_mem _ hq))
+    unfold foldParts at ih ⊢
+    simp only [List.foldl_cons]
+    constructor
+    · rw [ih.1, h1]; simp
+    · exact ih.2
+
+theorem frontend_spec_m (D : Down) (hD : D.Sorted) (splitMs : Int) (hsp : 0 < splitMs) (c : Cache) (req : Req)
+    (hstep : 0 < req.step) (h0 : 0 ≤ req.start) (hle : req.start ≤ req.stop) (hc : GoodCacheM D c) :
+    ∃ c', frontend ⟨true, true⟩ D true splitMs c req =
+        some (evalD D (req.start / req.step * req.step) (req.stop / req.step * req.step) req.step, c') ∧
+      GoodCacheM D c' := by
+  have hne : req.step ≠ 0 := by omega
+  have hs1 : req.start.tdiv req.step = req.start / req.step := Int.tdiv_eq_ediv_of_nonneg h0
+  have hs2 : req.stop.tdiv req.step = req.stop / req.step := Int.tdiv_eq_ediv_of_nonneg (by omega)
+  rw [frontend_eq _ _ _ _ _ hne, hs1, hs2]
+  generalize hS : req.start / req.step * req.step = s
+  generalize hE : req.stop / req.step * req.step = e
+  have hsm : s % req.step = 0 := by rw [← hS]; simp
+  have hem : e % req.step = 0 := by rw [← hE]; simp
+  have hs0 : 0 ≤ s := by
+    rw [← hS]; exact Int.mul_nonneg (Int.ediv_nonneg h0 (by omega)) (by omega)
+  have hse : s ≤ e := by
+    rw [← hS, ← hE]
+    exact Int.mul_le_mul_of_nonneg_right (Int.ediv_le_ediv hstep hle) (by omega)
+  obtain ⟨parts, hsplit, hgrid, hsub⟩ := split_spec s e req.step splitMs hstep hsp
+  rw [hsplit]
+  simp only
+  have hal : ∀ p ∈ parts, Aligned ⟨p.1, p.2, req.step⟩ := by
+    intro p hp
+    obtain ⟨a1, a2, a3, a4, a5⟩ := hsub p hp
+    have hp1 : p.1 % req.step = 0 := by
+      have : p.1 = (p.1 - s) + s := by omega
+      rw [this, Int.add_emod, Int.emod_eq_zero_of_dvd a1, hsm]; simp
+    have hp2 : p.2 % req.step = 0 := by
+      rcases a5 with a5 | a5
+      · have : p.2 = (p.2 - p.1) + p.1 := by omega
+        rw [this, Int.add_emod, Int.emod_eq_zero_of_dvd a5, hp1]; simp
+      · rw [a5]; exact hem
+    exact ⟨hstep, by simp; omega, a3, hp1, hp2⟩
+  obtain ⟨hresp, hcache⟩ := foldParts_spec_m D hD splitMs req.step parts [] c hc hal
+  refine ⟨(foldParts ⟨true, true⟩ D splitMs req.step parts ([], c)).2, ?_, hcache⟩
+  congr 2
+  rw [hresp, List.nil_append]
+  let ps : List Piece := parts.map fun p => ⟨p.1, p.2, evalD D p.1 p.2 req.step⟩
+  have hmap : parts.map (fun p => evalD D p.1 p.2 req.step) = ps.map (·.m) := by
+    simp [ps, List.map_map, Function.comp_def]
+  rw [hmap]
+  have hex : Exact D req.step s e (mergeResponse true (ps.map (·.m))) := by
+    apply merge_exact
+    · intro p hp
+      simp only [ps, List.mem_map] at hp
+      obtain ⟨q, hq, rfl⟩ := hp
+      have := hal q hq
+      exact ⟨this.2.1, evalD_exact D hD req.step q.1 q.2 hstep this.2.2.2.1⟩
+    · intro p hp
+      simp only [ps, List.mem_map] at hp
+      obtain ⟨q, hq, rfl⟩ := hp
+      obtain ⟨_, a2, _, a4, _⟩ := hsub q hq
+      exact ⟨a2, a4⟩
+    · intro t ht1 ht2 ht3
+      have hmem : t ∈ grid s e req.step := (mem_grid hstep).mpr ⟨ht1, ht2, by rw [Int.sub_emod, ht3, hsm]; simp⟩
+      rw [← hgrid] at hmem
+      obtain ⟨q, hq, htq⟩ := List.mem_flatMap.mp hmem
+      have := (mem_grid hstep).mp htq
+      exact ⟨⟨q.1, q.2, evalD D q.1 q.2 req.step⟩, List.mem_map.mpr ⟨q, hq, rfl⟩, this.1, this.2.1⟩
+  exact hex.unique (evalD_exact D hD req.step s e hstep hsm)
+
+theorem history_spec_m (D : Down) (hD : D.Sorted) (splitMs : Int) (hsp : 0 < splitMs) :
+    ∀ (reqs : List Req) (c : Cache), GoodCacheM D c → (∀ r ∈ reqs, 0 < r.step ∧ 0 ≤ r.start ∧ r.start ≤ r.stop) →
+      history ⟨true, true⟩ D true splitMs c reqs =
+        reqs.map fun r => some (evalD D (r.start / r.step * r.step) (r.stop / r.step * r.step) r.step)
+  | [], _, _, _ => rfl
+  | r :: rs, c, hc, hr => by
+    obtain ⟨h1, h2, h3⟩ := hr r (by simp)
+    obtain ⟨c', hf, hc'⟩ := frontend_spec_m D hD splitMs hsp c r h1 h2 h3 hc
+    unfold history
+    rw [hf]
+    simp only [List.map_cons]
+    rw [history_spec_m D hD splitMs hsp rs c' hc' (fun r' hr' => hr r' (List.mem_cons_of_mem _ hr'))]
+
+end
+
 end Thanos.ResultsCache
